@@ -295,11 +295,17 @@ fn run_session<S: CmdSet>(script: &Value, out: &mut dyn FnMut(Value), opts: &Run
         .prompt(PROMPTS[prompt_idx])
         .build();
 
-    let names: Vec<Value> = S::NAMES.iter().map(|n| json!(n.as_bytes())).collect();
+    let typed_id = cfg["decl"].as_str().map(|s| s.to_string());
+    let typed_feed = typed_id.as_deref().and_then(crate::gen_cmds::feed_for);
+    let names: Vec<Value> = if typed_feed.is_some() {
+        cfg["names"].as_array().cloned().unwrap_or_default()
+    } else {
+        S::NAMES.iter().map(|n| json!(n.as_bytes())).collect()
+    };
     let cfg_json = json!({
         "cmd": cmd,
         "hcap": hcap,
-        "set": S::ID,
+        "set": typed_id.clone().unwrap_or_else(|| S::ID.to_string()),
         "names": names,
         "prompt": PROMPTS[prompt_idx].as_bytes(),
         "hist": cfg!(feature = "history"),
@@ -341,9 +347,29 @@ fn run_session<S: CmdSet>(script: &Value, out: &mut dyn FnMut(Value), opts: &Run
         match ev {
             "byte" => {
                 let b = step["b"].as_u64().unwrap_or(0) as u8;
-                let hs = parse_hs(step.get("hs"));
+                let mut hs = parse_hs(step.get("hs"));
                 let mut calls = vec![];
-                let res = if via_processor {
+                let res = if let Some(feed) = typed_feed {
+                    // a derived command set: the processor parses the raw command itself
+                    let mut tctx = crate::typed::TypedCtx {
+                        raw_calls: vec![],
+                        calls: vec![],
+                        errs: vec![],
+                        script: hs.clone(),
+                        sink: sink.clone(),
+                    };
+                    let r = feed(&mut cli, b, &mut tctx, false);
+                    calls = std::mem::take(&mut tctx.raw_calls);
+                    if tctx.calls.is_empty() {
+                        // the line was rejected by the derived parser: the application's
+                        // handler (and with it the scripted output / prompt change) never ran
+                        hs = HandlerScript {
+                            chunks: vec![],
+                            prompt: -1,
+                        };
+                    }
+                    r
+                } else if via_processor {
                     // the library's own wrapper: RawCommand::processor(closure)
                     let sink2 = sink.clone();
                     let calls_ref = &mut calls;
